@@ -112,6 +112,11 @@ def parse_template(path, defines=None):
                 kv = _kv(shlex.split(line[len("@extract "):]))
                 ex = {"file": kv["file"], "path": kv["item"], "mode": kv.get("mode", "verbatim"),
                       "splices": [], "name": kv.get("name"), "keep_docs": False}
+                # `trustable=NAME`: when the define NAME is set, the item is included with its
+                # contract only (external_body) - its body is verified by another unit
+                if kv.get("trustable") and kv["trustable"] in defines and ex["mode"] == "verbatim":
+                    ex["mode"] = "trusted"
+                    ex["_contract_only"] = True
             elif line.startswith("@") and not line.startswith("@@"):
                 raise Undecided(f"{path}: stray directive {line!r}")
             else:
@@ -120,6 +125,8 @@ def parse_template(path, defines=None):
         # inside an extract block
         if line.startswith("@end"):
             flush_splice()
+            if ex.pop("_contract_only", False):
+                ex["splices"] = [sp for sp in ex["splices"] if sp["at"] == "sig"]
             segs.append(("extract", ex))
             ex = None
         elif line.startswith("@expectsig "):
